@@ -97,6 +97,20 @@ theorem write0_keep (c : PCodec) (s : Sched) (z : PZ) (p : Bytes) :
     · have hl := loop_frame c s (p.length + 1) (z.sync s) p p.length
       exact ⟨hl.ac.trans hf.ac, hl.cl.trans hf.cl, hl.cf.trans hf.cf⟩
 
+/-- `Write` on a writer that has not written its header yet (no listener: `sync` only counts the observation) -/
+theorem write0_fresh (c : PCodec) (s : Sched) (z : PZ) (p : Bytes) (hli : z.listening = false) (he : z.err = false)
+    (hwh : z.wroteHeader = false) :
+    PZ.write0 c s z p =
+      if (z.sink.write c.hdr).2.2 = true then
+        (({ z with tick := z.tick + 1, wroteHeader := true, sink := (z.sink.write c.hdr).1, err := true } : PZ),
+          (z.sink.write c.hdr).2.1, true)
+      else PZ.loop c s (p.length + 1)
+        ({ z with tick := z.tick + 1, wroteHeader := true, listening := true, sink := (z.sink.write c.hdr).1, cur := [] } : PZ)
+        p p.length := by
+  unfold PZ.write0
+  rw [sync_not_listening s hli]
+  simp only [he, hwh, Bool.false_eq_true, if_false, Bool.not_false, if_true]
+
 theorem write0_spec (c : PCodec) (hbs : 0 < c.bs) (s : Sched) {limit : Nat} {cf : Bool} (z : PZ) (p : Bytes)
     (h : PLive0 c limit cf z) (hcl : p.length ≠ 0 → z.closed = false) :
     ((PZ.write0 c s z p).2.2 = false → (PZ.write0 c s z p).2.1 = p.length ∧ (PZ.write0 c s z p).1.err = false ∧
@@ -128,27 +142,25 @@ theorem write0_spec (c : PCodec) (hbs : 0 < c.bs) (s : Sched) {limit : Nat} {cf 
       exact ⟨a, b, d, hfr.li.trans (hf.li.trans hli), hfr.wh.trans (hf.wh.trans hwh)⟩
   | false =>
     obtain ⟨hacc, hdn, hcu, hgot, hpend, hlim, hlf, hli⟩ := h.hdr0 hwh
-    rw [sync_not_listening s hli]
     have he : z.err = false := h.err
-    simp only [he, Bool.false_eq_true, if_false, hwh, Bool.not_false, if_true]
     have hs := hdr_spec c hbs (limit := limit) z he hdn hgot hpend hlim hlf hli
-    rw [hacc, List.nil_append]
+    have hap : z.acc ++ p = p := by rw [hacc]; rfl
+    have hfresh := write0_fresh c s z p hli he hwh
+    unfold PZ.write0 at hfresh
+    dsimp only at hfresh
+    rw [hfresh, hap]
     by_cases hr : (z.sink.write c.hdr).2.2 = true
     · rw [if_pos hr]
       refine ⟨fun hh => absurd hh (by simp), fun _ => ⟨rfl, ?_⟩⟩
-      have hc := hs.1 hr
-      have hc' : Core limit (c.pre []) ({ z with tick := z.tick + 1, wroteHeader := true,
-          sink := (z.sink.write c.hdr).1, err := true } : PZ) := core_congr hc rfl rfl rfl rfl rfl
-      have := core_dead_mono hc' rfl (pre_mono c [] p)
-      simpa using this
+      have hc' : Core limit (c.pre []) ({ z with tick := z.tick + 1, wroteHeader := true, sink := (z.sink.write c.hdr).1, err := true } : PZ) :=
+        core_congr (hs.1 hr) rfl rfl rfl rfl rfl
+      exact core_dead_mono hc' rfl (pre_mono c [] p)
     · rw [if_neg hr]
       have hr' : (z.sink.write c.hdr).2.2 = false := by simpa using hr
-      have hT := hs.2 hr'
-      have hT' : Tracks c limit ({ z with tick := z.tick + 1, wroteHeader := true, listening := true,
-          sink := (z.sink.write c.hdr).1, cur := [] } : PZ) [] := tracks_congr hT rfl rfl rfl rfl rfl rfl rfl
+      have hT' : Tracks c limit ({ z with tick := z.tick + 1, wroteHeader := true, listening := true, sink := (z.sink.write c.hdr).1, cur := [] } : PZ) [] :=
+        tracks_congr (hs.2 hr') rfl rfl rfl rfl rfl rfl rfl
       have hl := loop_spec c hbs s (p.length + 1) _ p p.length [] (Nat.lt_succ_self _) hT' (fun hp => hcl hp)
-      have hfr := loop_frame c s (p.length + 1) ({ z with tick := z.tick + 1, wroteHeader := true, listening := true,
-          sink := (z.sink.write c.hdr).1, cur := [] } : PZ) p p.length
+      have hfr := loop_frame c s (p.length + 1) ({ z with tick := z.tick + 1, wroteHeader := true, listening := true, sink := (z.sink.write c.hdr).1, cur := [] } : PZ) p p.length
       simp only [List.nil_append] at hl
       refine ⟨fun hh => ?_, hl.2⟩
       obtain ⟨a, b, d⟩ := hl.1 hh
@@ -272,39 +284,59 @@ theorem closeTail_spec (c : PCodec) (s : Sched) {limit : Nat} (z1 : PZ) (e : Byt
         show (z2.sink.write (c.trl e)).1.got = _
         rw [hg, List.take_of_length_le hle]
 
+/-- `Close` when the pushed error is visible at its entry -/
+theorem close_err (c : PCodec) (s : Sched) (z : PZ) (he : (z.sync s).err = true) :
+    PZ.close c s z = (z.sync s, true) := by
+  unfold PZ.close
+  dsimp only
+  rw [if_pos he]
+
+/-- `Close` of a writer that has written its header -/
+theorem close_hdr (c : PCodec) (s : Sched) (z : PZ) (he : (z.sync s).err = false) (hw : (z.sync s).wroteHeader = true) :
+    PZ.close c s z = PZ.closeTail c s ({ z.sync s with closed := true } : PZ) := by
+  unfold PZ.close
+  simp only [he, hw, Bool.false_eq_true, if_false, if_true]
+
+/-- `Close` of a writer that never wrote anything: `z.Write(nil)` writes the header first -/
+theorem close_fresh (c : PCodec) (s : Sched) (z : PZ) (hli : z.listening = false) (he : z.err = false)
+    (hwh : z.wroteHeader = false) :
+    PZ.close c s z =
+      if ((PZ.write0 c s ({ z with tick := z.tick + 1, closed := true } : PZ) []).1.sync s).err = true then
+        ((PZ.write0 c s ({ z with tick := z.tick + 1, closed := true } : PZ) []).1.sync s, true)
+      else PZ.closeTail c s ((PZ.write0 c s ({ z with tick := z.tick + 1, closed := true } : PZ) []).1.sync s) := by
+  unfold PZ.close
+  rw [sync_not_listening s hli]
+  simp only [he, hwh, Bool.false_eq_true, if_false]
+
 theorem close_spec (c : PCodec) (hbs : 0 < c.bs) (s : Sched) {limit : Nat} {cf : Bool} (z : PZ)
     (h : PLive c limit cf z) :
     (PZ.close c s z).1.sink.got = (c.toCodec.stream z.acc).take limit ∧
     ((PZ.close c s z).2 = true ↔ limit < (c.toCodec.stream z.acc).length) ∧
     (PZ.close c s z).1.sink.closeFails = cf := by
-  unfold PZ.close
   have hf := sync_frame s z
   have hd := sync_dc s z
   have hpre1 : c.pre z.acc <+: c.toCodec.stream z.acc := by
     rw [stream_eq, List.append_assoc]; exact List.prefix_append _ _
-  dsimp only
   cases hwh : z.wroteHeader with
   | true =>
     obtain ⟨hT, hli⟩ := h.hdr1 hwh
     have hT' : Tracks c limit (z.sync s) z.acc :=
       ⟨sync_core s hT.core, hT.fd.trans hd.dn.symm, hT.fc.trans hd.cu.symm, by rw [hd.cu]; exact hT.lt⟩
     by_cases he : (z.sync s).err = true
-    · rw [if_pos he]
+    · rw [close_err c s z he]
       obtain ⟨a, b⟩ := core_dead_result hT'.core he hpre1
       exact ⟨a, ⟨fun _ => b, fun _ => rfl⟩, hf.cf.trans h.cfe⟩
-    · rw [if_neg he]
-      have he' : (z.sync s).err = false := by simpa using he
+    · have he' : (z.sync s).err = false := by simpa using he
       have hw' : (z.sync s).wroteHeader = true := hf.wh.trans hwh
-      simp only [hw', if_true, he', Bool.false_eq_true, if_false]
+      rw [close_hdr c s z he' hw']
       have hT1 : Tracks c limit ({ z.sync s with closed := true } : PZ) z.acc :=
         tracks_congr hT' rfl rfl rfl rfl rfl rfl rfl
       obtain ⟨a, b, d⟩ := closeTail_spec c s _ z.acc hT1 (hf.li.trans hli) rfl
       exact ⟨a, b, d.trans (hf.cf.trans h.cfe)⟩
   | false =>
     obtain ⟨hacc, hdn, hcu, hgot, hpend, hlim, hlf, hli⟩ := h.hdr0 hwh
-    rw [sync_not_listening s hli]
     have he : z.err = false := h.err
-    simp only [he, Bool.false_eq_true, if_false, hwh]
+    rw [close_fresh c s z hli he hwh]
     -- `z.Write(nil)` from `Close`
     have hP0 : PLive0 c limit cf ({ z with tick := z.tick + 1, closed := true } : PZ) :=
       ⟨h.cfe, he, fun _ => ⟨hacc, hdn, hcu, hgot, hpend, hlim, hlf, hli⟩, fun hh => by
@@ -317,13 +349,14 @@ theorem close_spec (c : PCodec) (hbs : 0 < c.bs) (s : Sched) {limit : Nat} {cf :
     rw [hacc', List.append_nil] at hs
     have hf1 := sync_frame s r.1
     have hd1 := sync_dc s r.1
+    have hcf1 : (r.1.sync s).sink.closeFails = cf := hf1.cf.trans (hk.2.2.trans h.cfe)
     cases hr : r.2.2 with
     | true =>
       obtain ⟨hre, hrc⟩ := hs.2 hr
       have he1 : (r.1.sync s).err = true := sync_err hre
       rw [if_pos he1]
       obtain ⟨a, b⟩ := core_dead_result (sync_core s hrc) he1 hpre1
-      exact ⟨a, ⟨fun _ => b, fun _ => rfl⟩, hf1.cf.trans (hk.2.2.trans h.cfe)⟩
+      exact ⟨a, ⟨fun _ => b, fun _ => rfl⟩, hcf1⟩
     | false =>
       obtain ⟨_, hre, hrT, hrl, _⟩ := hs.1 hr
       have hT1 : Tracks c limit (r.1.sync s) z.acc :=
@@ -331,10 +364,10 @@ theorem close_spec (c : PCodec) (hbs : 0 < c.bs) (s : Sched) {limit : Nat} {cf :
       by_cases he1 : (r.1.sync s).err = true
       · rw [if_pos he1]
         obtain ⟨a, b⟩ := core_dead_result hT1.core he1 hpre1
-        exact ⟨a, ⟨fun _ => b, fun _ => rfl⟩, hf1.cf.trans (hk.2.2.trans h.cfe)⟩
+        exact ⟨a, ⟨fun _ => b, fun _ => rfl⟩, hcf1⟩
       · rw [if_neg he1]
         obtain ⟨a, b, d⟩ := closeTail_spec c s _ z.acc hT1 (hf1.li.trans hrl) (hf1.cl.trans hk.2.1)
-        exact ⟨a, b, d.trans (hf1.cf.trans (hk.2.2.trans h.cfe))⟩
+        exact ⟨a, b, d.trans hcf1⟩
 
 /-- compressed `Wfile.Close` over the transcribed pgzip writer: the characterisation of `closeZ_eq`, for every
 schedule of the listener goroutine and every choice of the `select` -/
@@ -375,6 +408,7 @@ theorem closeP_eq (c : PCodec) (hbs : 0 < c.bs) (s : Sched) {limit : Nat} {cf : 
       have : ¬ (limit < (c.toCodec.stream e).length) := fun hh => by
         have := bb.mpr hh
         rw [hr] at this; cases this
-      simp [this]
+      simp only [this, decide_false, Bool.false_or, Bool.or_false]
+      cases own <;> cases cf <;> rfl
 
 end ObiVerif.WriteErr
